@@ -23,6 +23,7 @@ type taskState int
 const (
 	tsNew taskState = iota
 	tsWaiting        // suspended before an acquisition
+	tsYield          // suspended right after a release: what follows it (relays computed under the lock, ...) may come later
 	tsRunning
 	tsDone
 )
@@ -74,7 +75,18 @@ func (s *sched) Release(m *vsync.RWMutex, write bool) {
 	} else {
 		m.R--
 	}
+	if !yieldOnRelease {
+		return
+	}
+	t := s.cur
+	t.state = tsYield
+	s.back <- struct{}{}
+	<-t.resume
 }
+
+// yieldOnRelease makes every release a scheduling point too (what a handler does with what it read under a lock happens
+// after the lock is gone)
+var yieldOnRelease = true
 
 func (t *task) enabledNow() bool {
 	switch t.state {
@@ -82,6 +94,8 @@ func (t *task) enabledNow() bool {
 		return true
 	case tsWaiting:
 		return grantable(t.want, t.write) || (t.write && !t.announced)
+	case tsYield:
+		return true
 	}
 	return false
 }
@@ -143,6 +157,11 @@ func (s *sched) run(body func(t *task)) string {
 				t.state = tsDone
 				s.back <- struct{}{}
 			}()
+			<-s.back
+		case tsYield:
+			t.state = tsRunning
+			s.cur = t
+			t.resume <- struct{}{}
 			<-s.back
 		case tsWaiting:
 			if !grantable(t.want, t.write) {
@@ -341,11 +360,19 @@ func exploreConc(cfg Config, header string, prefix []string, conns []int, post [
 			deadlocks++
 		}
 		// outcome identity: what everybody received and the registry, not the schedule itself
+		// (every connection's deliveries in the order it got them; which connection is served first does not matter)
 		var sig []string
+		inbox := map[string][]string{}
 		for _, l := range strings.Split(buf.String(), "\n") {
-			if strings.HasPrefix(l, "D ") || strings.HasPrefix(l, "S ") || strings.HasPrefix(l, "O ") || strings.HasPrefix(l, "Q ") {
+			if strings.HasPrefix(l, "D ") {
+				f := strings.SplitN(l, " ", 3)
+				inbox[f[1]] = append(inbox[f[1]], l)
+			} else if strings.HasPrefix(l, "S ") || strings.HasPrefix(l, "O ") || strings.HasPrefix(l, "Q ") {
 				sig = append(sig, l)
 			}
+		}
+		for c, ls := range inbox {
+			sig = append(sig, c+" << "+strings.Join(ls, " ;; "))
 		}
 		sort.Strings(sig)
 		k := strings.Join(sig, "\n")
